@@ -550,8 +550,14 @@ def _run(ctx, rng, big, events):
             else:
                 comps.utilities.unsubscribe((), p_, c_)
                 want = ('needed_subscribed', 1)     # (subscribed once per provided interface, whatever the number of names)
+            seen_damaged = list(comps.getAllUtilitiesRegisteredFor(p_))       # (asked, and cached, in the damaged state)
             rb2 = comps.rebuildUtilityRegistryFromLocalCache(rebuild=True)
             rb3 = comps.rebuildUtilityRegistryFromLocalCache()
+            seen_repaired = list(comps.getAllUtilitiesRegisteredFor(p_))
+            # (subscriptions are per equality class of the component: an equal one may stand for it)
+            if comps.queryUtility(p_, n_) is not c_ or not any(x == c_ for x in seen_repaired):
+                ctx.violation('repair-does-not-show-in-the-queries', dict(where, damaged=what, before_repair=repr(seen_damaged),
+                                                                          after_repair=repr(seen_repaired)))
             ctx.ev(2)
             ctx.count('damaged_utility_registries_reported_and_repaired[%s]' % what)
             if rb2[want[0]] != want[1] or rb3['needed_registered'] or rb3['needed_subscribed']:
